@@ -297,9 +297,20 @@ def r3(ck, F):
             for p in paths_to_onclose:
                 has_guard = any("start_close" in show(c[0]) or "as_mut" in show(c[0]) for c in p.conds if c[1] == 1) or \
                     any(show(c[0]).startswith("discr(") and c[1] == 1 for c in p.conds)
-                if setc[0] in p.blocks:
-                    if p.blocks.index(setc[0]) > p.blocks.index(onc[0]):
-                        ok, msg = False, "set_closing happens after on_close"
+                # (the relative order of set_closing and on_close is immaterial for non-panicking histories: both
+                #  precede the guard's drop, which is what reads the flag)
+            # the close guard is taken BEFORE the inner collector is asked: in a stack of several Layered values each
+            # takes a guard on the way in, so the per-thread count is only back to zero when the outermost one drops;
+            # a guard taken after inner.try_close would let the innermost Layered clear the slot before the outer
+            # layers' on_close ran
+            sc = [bb for bb, t in lt.calls() if t["callee"].get("path", "").endswith("Registry::start_close")] + \
+                 [bb for x in F.closures_of(lt) for bb, t in x.calls() if t["callee"].get("path", "").endswith("Registry::start_close")]
+            mapc = [bb for bb, t in lt.calls() if t["callee"].get("method") == "map" and "Option" in t["callee"].get("path", "")]
+            took = [bb for bb, t in lt.calls() if t["callee"].get("path", "").endswith("Registry::start_close")] or mapc
+            if not sc:
+                ok, msg = False, "no Registry::start_close in Layered::try_close"
+            elif not any(lt.dominates(tb, inner[0]) for tb in took):
+                ok, msg = False, "the close guard (Registry::start_close) is taken after inner.try_close: an inner Layered's guard would clear the slot before the outer layers' on_close"
             # the guard (Option<CloseGuard>) local is dropped after on_close on the normal path
             gl = None
             for i, ty in enumerate(lt.locals):
